@@ -275,15 +275,18 @@ def evaluate(run, recs, sources, label):
             reasons.add(CLS_WALRUS if erase_cache[t[0]] else CLS_NONASSIGNABLE)
         explained = all(w.split(':')[0] in CTX_EXPLAINED for w, _ in r['fails'])
         cls = None
-        if reasons and explained:
-            cls = CLS_WALRUS if reasons == {CLS_WALRUS} else (CLS_NONASSIGNABLE if CLS_NONASSIGNABLE in reasons else None)
-        elif explained and 'L' in r['cfg'][1:] and sources.get(r['prog']):
-            # Feature.LISTS: classes decided by the Lean predicates on the SOURCE function
+        sc = []
+        if explained and 'L' in r['cfg'][1:] and sources.get(r['prog']):
+            # Feature.LISTS: root-cause classes decided by the Lean predicates on the SOURCE function (they come first: a
+            # target turned into a call also trips usesOk at the next template that binds it)
             if r['prog'] not in src_class:
                 src_class[r['prog']] = source_classes(run, sources[r['prog']])
             sc = src_class[r['prog']]
+        if sc:
+            cls = sc[0]
             reasons.update(sc)
-            cls = sc[0] if sc else None
+        elif reasons and explained:
+            cls = CLS_WALRUS if reasons == {CLS_WALRUS} else (CLS_NONASSIGNABLE if CLS_NONASSIGNABLE in reasons else None)
         for w, d in r['fails'][:1]:
             stats['failing:' + w.split(':')[0]] += 1
         case = {'program': sources.get(r['prog']), 'cfg': r['cfg'], 'key': r['key'], 'fails': [[w, str(d)[:400]] for w, d in r['fails'][:6]],
